@@ -5,6 +5,7 @@ package scen
 import (
 	"fmt"
 	"math/rand"
+	"net"
 	"os"
 	"runtime"
 	"sort"
@@ -801,7 +802,7 @@ func runC01(c *Ctx) {
 	r := c.R
 	r.Assume("'never none' is restated as bounded progress: a reply is lost iff every backend attempt was answered or dropped and the same client completed 2x50 further OPTIONS round trips with nothing moving")
 	r.Assume("a request counts only while its client connection stays open; EVENT frames on stream -1 are not replies")
-	r.Require("requests_answered", "death_orders_run", "kill_under_fire_runs")
+	r.Require("requests_answered", "death_orders_run", "kill_under_fire_runs", "proxy_closed_connections_with_requests_in_flight")
 	if os.Getenv("VERIF_C01_ONLY") != "" {
 		// debugging aid
 	}
@@ -881,6 +882,13 @@ func runC01(c *Ctx) {
 		k := next()
 		if c.Mine(k) {
 			killUnderFire(c, j, 24+8*(j%2), c.Pick(250, 600))
+		}
+	}
+	// 3c. the proxy closes connections with requests in flight itself
+	for j := 0; j < c.Pick(4, 120); j++ {
+		k := next()
+		if c.Mine(k) {
+			proxyClosesConn(c, j, []string{"idle-timeout", "host-removed"}[j%2])
 		}
 	}
 	// 4. exhaustion
@@ -1040,4 +1048,138 @@ func bytesEqual(a, b []byte) bool {
 		}
 	}
 	return true
+}
+
+// proxyClosesConn: the proxy itself closes a backend connection that has requests in flight - because the connection
+// stopped answering heartbeats for longer than the idle timeout, or because its host left the cluster. For the requests
+// on it this is a lost connection like any other: each is answered exactly once (C01), and the ones that are not
+// positively idempotent are not sent anywhere else (C04).
+func proxyClosesConn(c *Ctx, idx int, how string) {
+	r := c.R
+	label := "proxy-closes-connection/" + how
+	scenario := map[string]interface{}{"kind": "proxy-closes-connection", "how": how, "idx": idx}
+	c.Step("proxy-closes-connection how=%s idx=%d", how, idx)
+	hosts := 3 + idx%2
+	bed, err := px.NewBed(px.BedConfig{Hosts: hosts, NumConns: 1 + idx%2, Keyspaces: []string{"ks1"}, HeartBeat: 40 * time.Millisecond, Idle: 250 * time.Millisecond, ConnectTimeout: 400 * time.Millisecond,
+		RefreshWindow: 20 * time.Millisecond, ReconnectBase: 2 * time.Millisecond, ReconnectMax: 10 * time.Millisecond})
+	if err != nil {
+		r.Inconc(label + ": cannot start bed: " + err.Error())
+		return
+	}
+	defer bed.Close()
+	bed.OnHook(nil)
+	if !waitFor(func() bool { return len(bed.Cluster.EstablishedControlConns()) >= 1 }, 10*time.Second) {
+		r.Inconc(label + ": no control connection")
+		return
+	}
+	ctl := bed.Cluster.EstablishedControlConns()[0].Host.Idx
+	victim := 1 + (ctl+idx%(hosts-1))%hosts // never the host serving the control connection
+	if victim == ctl {
+		victim = 1 + victim%hosts
+	}
+	var armed int32
+	var vmu sync.Mutex
+	swallowed := map[*fakecass.Conn]bool{}
+	bed.Cluster.SetScript(func(a *fakecass.Arrival) fakecass.Outcome {
+		if a.Host == victim && atomic.LoadInt32(&armed) == 1 {
+			vmu.Lock()
+			swallowed[a.Conn] = true
+			vmu.Unlock()
+			return fakecass.Silence()
+		}
+		return fakecass.Rows()
+	})
+	var clients []*rawcql.Client
+	for i := 0; i < 2; i++ {
+		cl, err := bed.ReadyClient(primitive.ProtocolVersion4, "")
+		if err != nil {
+			r.Inconc(label + ": handshake: " + err.Error())
+			return
+		}
+		defer cl.Close()
+		clients = append(clients, cl)
+	}
+	if err := PrepareStandard(bed, clients[0], true); err != nil {
+		r.Inconc(label + ": prepare: " + err.Error())
+		return
+	}
+	atomic.StoreInt32(&armed, 1)
+	mark := bed.Log.Len()
+	rng := c.Rng(4400 + idx)
+	total := 12 * hosts
+	nonIdem := map[string]bool{}
+	kinds := []ReqKind{KQuery, KExecute, KBatch}
+	for i := 0; i < total; i++ {
+		tok := NewTok()
+		idem := rng.Intn(2) == 0
+		if !idem {
+			nonIdem[tok] = true
+		}
+		if err := clients[i%2].SendF(BuildRequest(primitive.ProtocolVersion4, int16(1+i/2), kinds[rng.Intn(3)], idem, tok, primitive.ConsistencyLevelOne)); err != nil {
+			r.Inconc(label + ": send: " + err.Error())
+			return
+		}
+	}
+	// every request has been read by some host; those on the victim are in flight there
+	if !waitFor(func() bool {
+		cnt := 0
+		for _, e := range bed.Log.Snapshot()[mark:] {
+			if e.Src == "backend" && e.K == "recv" && e.Arrival == 1 && e.Tok != "" {
+				cnt++
+			}
+		}
+		return cnt >= total
+	}, 20*time.Second) {
+		r.Inconc(label + ": requests did not all reach the backend")
+		return
+	}
+	atomic.StoreInt32(&armed, 0)
+	vmu.Lock()
+	var vconns []*fakecass.Conn
+	for x := range swallowed {
+		vconns = append(vconns, x)
+	}
+	vmu.Unlock()
+	if len(vconns) == 0 {
+		r.Inconc(label + ": no request was in flight on the chosen host")
+		return
+	}
+	switch how {
+	case "idle-timeout":
+		for _, x := range vconns {
+			x.Mute() // from now on it does not answer heartbeats either
+		}
+	case "host-removed":
+		bed.Cluster.SetListed(victim, false)
+		bed.Cluster.Emit(&message.TopologyChangeEvent{ChangeType: primitive.TopologyChangeTypeRemovedNode, Address: &primitive.Inet{Addr: net.ParseIP(bed.Cluster.HostIP(victim)), Port: int32(bed.Cluster.Port)}})
+	}
+	// the proxy closes those connections itself (the backend never does)
+	if !waitFor(func() bool {
+		for _, x := range vconns {
+			if !x.IsClosed() {
+				return false
+			}
+		}
+		return true
+	}, 20*time.Second) {
+		r.Inconc(label + ": the proxy did not close the connections (judged by C16)")
+		return
+	}
+	r.Obs("proxy_closed_connections_with_requests_in_flight", len(vconns))
+	drain(r, bed, NewScripts(), clients, label, scenario, mark)
+	evs := bed.Log.Snapshot()[mark:]
+	inflight := 0
+	for tok, as := range Traces(evs) {
+		if len(as) > 0 && as[0].Host == victim && as[0].Outcome == "Silence" || (len(as) > 0 && as[0].Host == victim && as[0].Outcome == "") {
+			inflight++
+		}
+		if nonIdem[tok] && len(as) > 1 {
+			r.Violate(mon.Violation{Property: "C04", Signature: fmt.Sprintf("C04/re-executed-after/proxy-closed-connection/%s/%s", how, opName(as[0].Op)),
+				Detail:   fmt.Sprintf("request %s is not idempotent; it was in flight on a connection to host %d that the proxy closed itself (%s), and was then sent again: attempts %s", tok, as[0].Host, how, describe(as)),
+				Scenario: scenario, Witness: as})
+		}
+	}
+	r.Eval(total)
+	r.Obs("requests_in_flight_on_proxy_closed_connections", inflight)
+	r.NonTrivial(fmt.Sprintf("%s/h%d/c%d", label, hosts, 1+idx%2))
 }
